@@ -90,6 +90,19 @@ def kind : Kind where
     | [.atom "panic"] => { st := st, tags := [l.op], spec := some s!"no-panic:{l.op}" }
     | [.atom "hang"] => { st := st, tags := [l.op], spec := some s!"terminates:{l.op}" }
     | _ =>
+    if l.op == "held" then
+      -- what `Get` handed back is a value: re-reading an item obtained earlier gives what it gave then, whatever was
+      -- stored since (the result list pairs the value read at the time with the value read now)
+      match l.res with
+      | [v] =>
+        let same := match v with
+          | .list ps => ps.all fun p => match p with
+            | .list [a, b] => a == b
+            | _ => false
+          | _ => false
+        { st := st, tags := ["held"], spec := if same then none else some "deadline-map:get-result-is-stable" }
+      | _ => { st := st, bad := some "cache held line" }
+    else
     match parseOp l with
     | none => { st := st, bad := some s!"bad cache op {l.op}" }
     | some op =>
